@@ -7,6 +7,7 @@ package main
 import (
 	"encoding/json"
 	"fmt"
+	"math"
 	"runtime"
 	"sort"
 	"strings"
@@ -24,10 +25,13 @@ type replayCase struct {
 }
 
 var (
-	qcoords = []float64{-1, 0, 1.5, 2, 4.5}
-	ks      = []int{0, 1, 2, 3, 8}
-	maxds   = []float64{-1, 0, 1, 2.5, 100} // -1 = not given
-	bxs     = [][2]float64{}
+	qcoords    = []float64{-1, 0, 1.5, 2, 4.5}
+	qcX, qcY   = qcoords, qcoords
+	bxsX, bxsY [][2]float64
+	skew       = false // scenario: false = dyadic bound [0,4]^2, true = the non-dyadic bound [0.2,2.2]x[0.1,0.7]
+	ks         = []int{0, 1, 2, 3, 8}
+	maxds      = []float64{-1, 0, 1, 2.5, 100} // -1 = not given
+	bxs        = [][2]float64{}
 )
 
 func init() {
@@ -39,9 +43,67 @@ func init() {
 	}
 	bxs = append(bxs, [2]float64{1, -1}) // inverted / empty sentinel
 	bxs = append(bxs, [2]float64{0.5, 3.5})
+	bxsX, bxsY = bxs, bxs
+}
+
+// the non-dyadic scenario: the two ways of writing a midline differ in the last bit on such bounds, so
+// pointers sit on the midline by either formula and one ulp to either side, and the query boxes have their
+// edges through exactly those values.
+var (
+	skewBound = orb.Bound{Min: orb.Point{0.2, 0.1}, Max: orb.Point{2.2, 0.7}}
+	skewMX    = (skewBound.Min[0] + skewBound.Max[0]) / 2
+	skewMY    = (skewBound.Min[1] + skewBound.Max[1]) / 2
+	skewMX2   = skewBound.Min[0] + (skewBound.Max[0]-skewBound.Min[0])/2
+	skewMY2   = skewBound.Min[1] + (skewBound.Max[1]-skewBound.Min[1])/2
+)
+
+func up(v float64) float64   { return math.Nextafter(v, math.Inf(1)) }
+func down(v float64) float64 { return math.Nextafter(v, math.Inf(-1)) }
+
+func setSkew() {
+	skew = true
+	qcX = []float64{0, skewMX, 1.7, 3}
+	qcY = []float64{0, skewMY, 0.55}
+	pairs := func(c []float64) (out [][2]float64) {
+		sort.Float64s(c)
+		for i := range c {
+			for j := i; j < len(c); j++ {
+				if j > i && c[i] == c[j] {
+					continue
+				}
+				out = append(out, [2]float64{c[i], c[j]})
+			}
+		}
+		return
+	}
+	bxsX = pairs([]float64{skewBound.Min[0], down(skewMX), skewMX, up(skewMX), skewMX2, skewBound.Max[0], 5})
+	bxsY = pairs([]float64{skewBound.Min[1], down(skewMY), skewMY, up(skewMY), skewMY2, skewBound.Max[1]})
+}
+
+func skewUniverse(n int) *qt.Universe {
+	ox, oy := skewMX2, skewMY2
+	if ox == skewMX {
+		ox = up(skewMX)
+	}
+	if oy == skewMY {
+		oy = down(skewMY)
+	}
+	pts := []orb.Point{
+		skewBound.Min,    // takes the root when added first
+		{skewMX, skewMY}, // on both root midlines as the tree computes them
+		{ox, oy},         // on the midlines by the other formula (or one ulp off)
+		{down(skewMX), up(skewMY)},
+		{(skewBound.Min[0] + skewMX) / 2, (skewMY + skewBound.Max[1]) / 2}, // second-level midlines
+		skewBound.Max,
+	}
+	mc := []int{1, 1, 1, 1, 1, 1}
+	return qt.NewUniverse(skewBound, pts[:n], mc[:n])
 }
 
 func universe(n int) *qt.Universe {
+	if skew {
+		return skewUniverse(n)
+	}
 	pts := []orb.Point{
 		{2, 2}, // centre: on both root midlines
 		{2, 2}, // distinct pointer, equal coordinates
@@ -92,8 +154,8 @@ func observe(u *qt.Universe, q *quadtree.Quadtree, contents []*qt.P, outcomes ma
 		fail("bound", "Bound() = %v", q.Bound())
 	}
 	fs := filters(u)
-	for _, x := range qcoords {
-		for _, y := range qcoords {
+	for _, x := range qcX {
+		for _, y := range qcY {
 			pt := orb.Point{x, y}
 			for _, f := range fs {
 				// nearest
@@ -197,8 +259,8 @@ func observe(u *qt.Universe, q *quadtree.Quadtree, contents []*qt.P, outcomes ma
 			}
 		}
 	}
-	for _, bx := range bxs {
-		for _, by := range bxs {
+	for _, bx := range bxsX {
+		for _, by := range bxsY {
 			b := orb.Bound{Min: orb.Point{bx[0], by[0]}, Max: orb.Point{bx[1], by[1]}}
 			for fi, f := range fs {
 				if fi > 1 {
@@ -575,10 +637,17 @@ func main() {
 		r.Custom("bfs-closure-6p", "", func(p *ev.Part) { replay(r, p, 6) })
 		r.Custom("bfs-closure-8p", "", func(p *ev.Part) { replay(r, p, 8) })
 		r.Custom("bfs-closure-7p", "", func(p *ev.Part) { replay(r, p, 7) })
+		r.Custom("bfs-skew-5p", "", func(p *ev.Part) { setSkew(); replay(r, p, 5) })
+		r.Custom("bfs-skew-6p", "", func(p *ev.Part) { setSkew(); replay(r, p, 6) })
 		r.Finish()
 	}
 	r.Custom(part, fmt.Sprintf("%d pointers, all three mutations, search to closure (fixpoint)", n), func(p *ev.Part) { bfs(r, p, n, -1) })
 	r.Sample(map[string]interface{}{"deepest_history": r.Extra["deepest_history_sample"]})
+	ns := ev.Pick(r, 5, 6)
+	r.Custom(fmt.Sprintf("bfs-skew-%dp", ns), fmt.Sprintf("non-dyadic tree bound [0.2,2.2]x[0.1,0.7]: %d pointers on the root midlines (by either formula, and one ulp off), corners and a second-level midline; boxes with edges through exactly those values; search to closure", ns), func(p *ev.Part) {
+		setSkew()
+		bfs(r, p, ns, -1)
+	})
 	r.Sample(map[string]interface{}{"query_points": len(qcoords) * len(qcoords), "k": ks, "maxDist(-1=absent)": maxds, "boxes": len(bxs) * len(bxs)})
 	r.Finish()
 }
